@@ -18,8 +18,8 @@ ID = "C07"
 CASES = {"quick": 5000, "thorough": 50000}
 FLOOR = {"quick": 3500, "thorough": 35000}
 FLOOR_COUNTERS = {
-    "quick": {"picks_judged": 12000, "stale_score_picks": 3000, "residual_checks": 3000, "relation_fits": 2000},
-    "thorough": {"picks_judged": 90000, "stale_score_picks": 10000, "residual_checks": 15000, "relation_fits": 10000},
+    "quick": {"picks_judged": 12000, "stale_score_picks": 3000, "residual_checks": 3000, "relation_fits": 2000, "estimators_with_a_past": 1000, "small_unit_cases": 300},
+    "thorough": {"picks_judged": 90000, "stale_score_picks": 10000, "residual_checks": 15000, "relation_fits": 10000, "estimators_with_a_past": 10000, "small_unit_cases": 3000},
 }
 RULE = (
     "case = (CUR | PCov-CUR) x (feature | sample), matrix family with rank above the request, k in {1,2,3}, mixing in "
@@ -54,6 +54,10 @@ def gen(rng, tier, index):
     n, m = int(rng.integers(4, hi)), int(rng.integers(4, hi))
     kind = gens.pick(rng, KINDS)
     X = _matrix(rng, n, m, kind)
+    unit = 1.0
+    if rng.random() < 0.25:
+        unit = float(2.0 ** int(rng.integers(-24, 14)))
+        X = X * unit
     spec = {"dir": direction, "cls": cls, "kw": {}}
     kw = spec["kw"]
     N = X.shape[sel.axis_of(spec)]
@@ -70,11 +74,20 @@ def gen(rng, tier, index):
     elif rng.random() < 0.2:
         y = gens.target(rng, X, "noise", 1)
     kw["n_to_select"] = int(rng.integers(1, max(2, min(N, rank - 1)) + 1))
-    return {"spec": spec, "X": X, "y": y, "kind": kind}
+    past = None
+    if rng.random() < 0.3:  # the estimator was fitted before: other data of the same shape, another request
+        past = {"X": rng.normal(size=X.shape) * unit, "y": None if y is None else rng.normal(size=len(X)), "n": int(rng.integers(1, max(2, min(N, rank - 1)) + 1))}
+    return {"spec": spec, "X": X, "y": y, "kind": kind, "unit": unit, "past": past}
 
 
-def _fit(spec, X, y, j, label=""):
+def _fit(spec, X, y, j, label="", past=None):
     est = sel.make(spec)
+    if past is not None:
+        n_real = est.n_to_select
+        est.n_to_select = past["n"]
+        j.lib("fit:earlier-history", sel.fit, est, past["X"], past["y"], spec)
+        est.n_to_select = n_real
+        j.note("estimators_with_a_past")
     tr = rt.GreedyTrace(est)
     j.lib("fit" + label, sel.fit, est, X, y, spec)
     return est, tr
@@ -141,7 +154,9 @@ def run(case, j):
     axis = sel.axis_of(spec)
     kw = spec["kw"]
     j.tag(f"{spec['dir']}:{spec['cls']}", f"data:{case['kind']}", f"re:{kw['recompute_every']}", f"k:{kw['k']}", f"mixing:{kw.get('mixing')}")
-    est, tr = _fit(spec, X, y, j)
+    if case.get("unit", 1.0) < 1e-4:
+        j.note("small_unit_cases")
+    est, tr = _fit(spec, X, y, j, past=case.get("past"))
     seq, njudged, pis = _judge_fit(spec, X, y, est, tr, j)
     idx = [int(v) for v in est.selected_idx_]
     j.ok("selected_idx_ == traced commits", idx == seq, (idx, seq))
